@@ -10,12 +10,14 @@ int Futex::wake_one() noexcept {
   Node* node = nullptr;
   {
     ::std::lock_guard<::std::mutex> lock {_mutex};
-    for (node = _awaiter_head.next; node != nullptr; node = node->next) {
+    Node* next_node = nullptr;
+    for (node = _awaiter_head.next; node != nullptr; node = next_node) {
       // Unconditionally remove node from list, even when we can not take
       // ownership of it.
 
       // Link prev->next to next and next->prev to prev
-      auto next_node = node->next;
+      // Keep next_node for loop advance, node->next is cleared below
+      next_node = node->next;
       if (next_node != nullptr) {
         next_node->prev = &_awaiter_head;
       }
